@@ -259,6 +259,8 @@ func main() {
 		}
 		run(c)
 	}
+	// 3b. the heap ARRAY after every op that changes it (heaparr.go)
+	heapArrayLegs(run)
 	// 4. what the generators above do not vary: Runnable objects, constructors, extreme arguments, id counter, re-entrancy
 	diversityLegs(positions, run)
 	// 5. fourth round: clocks that step back between polls; the real clock with time units that are not whole milliseconds
